@@ -128,7 +128,8 @@ theorem alias_roundtrip (fuel : Nat) (a : Items.Alias) (hf : a.path.length < fue
 
 /-- **Round trip of a whole justfile.**  For every list of items - recipes with doc comment, attribute lines, header and
 body; assignments and aliases with `[private]`; settings of the three forms; imports; modules; `unexport`; comments - that
-are well-formed (`WFItem`: what `parse_ast` can return; recipe names are not one of the six item keywords), printing the file
+are well-formed (`WFItem`: what `parse_ast` can return) - recipes may be called `set`, `mod`, `import`, … : no look-ahead guard of
+the keyword dispatch fires on a printed header (`header_guards`) -, printing the file
 (`Display for Ast`: every item, an empty line after each recipe and between items of different kinds, as the lexer presents
 that text - the empty line after a recipe body comes before its `Dedent`) and parsing it (`parse_ast`: attribute lines,
 keyword dispatch with look-ahead, `pop_doc_comment` with `eol_since_last_comment`) returns exactly the items, minus what the
@@ -173,7 +174,7 @@ example : ∀ it ∈ ([.comment "# c".toList,
   simp only [List.mem_cons, List.mem_singleton, List.not_mem_nil, or_false] at hit
   rcases hit with rfl | rfl | rfl | rfl
   · show Ast.trimEnd _ = _; decide
-  · refine ⟨⟨⟨?_, ?_⟩, ⟨⟨?_, ?_, ?_, ?_⟩, ?_, ?_⟩, ?_, ?_⟩, ?_, ?_⟩
+  · refine ⟨⟨⟨?_, ?_⟩, ⟨⟨?_, ?_, ?_, ?_⟩, ?_, ?_⟩, ?_⟩, ?_, ?_⟩
     · intro a ha; simp at ha; subst ha; exact Ast.private_valid
     · simp
     · intro p hp; simp at hp
@@ -182,7 +183,6 @@ example : ∀ it ∈ ([.comment "# c".toList,
     · intro d hd; simp at hd
     · intro l hl f hf; simp at hl; subst hl; simp at hf; subst hf; trivial
     · simp [Items.NoTrailingEmpty]
-    · intro _; unfold Ast.notItemKeyword; decide
     · decide
     · intro h; simp [Ast.hasAttr] at h
     · intro d hd
